@@ -215,7 +215,7 @@ func monitorSyscallOrder(c *core.Ctx) {
 	out := make([]tr, runs*2)
 	core.ParallelFor(runs*2, 8, func(i int) {
 		rng := rand.New(rand.NewSource(c.SubSeed("strace", i)))
-		dir := scratchDir("")
+		dir := scratchDir(fastScratch)
 		defer os.RemoveAll(dir)
 		in := seqIn{Kind: []string{"file", "generic"}[i%2], Path: filepath.Join(dir, "offsets.yaml")}
 		n := 3 + rng.Intn(5)
@@ -231,7 +231,7 @@ func monitorSyscallOrder(c *core.Ctx) {
 			}
 		}
 		trace := filepath.Join(dir, "trace.txt")
-		res := core.RunChild("seq", in, core.ChildOpt{Timeout: 3 * time.Minute,
+		res := runChild("seq", in, core.ChildOpt{Timeout: 3 * time.Minute,
 			Prefix: []string{"/usr/bin/strace", "-f", "-y", "-o", trace, "-e", "trace=openat,open,creat,write,pwrite64,ftruncate,fsync,fdatasync,rename,renameat,renameat2"}})
 		b, _ := os.ReadFile(trace)
 		out[i] = tr{kind: in.Kind, saves: n, events: parseStrace(string(b)), final: in.Path, ok: res.Completed, text: string(b)}
